@@ -370,6 +370,21 @@ impl TirGen {
             3 => Expression::String(self.string(rng)),
             4 => Expression::List((0..rng.usize(3)).map(|_| Expression::Number(self.int(rng))).collect()),
             5 => Expression::Bool(rng.bool()),
+            6 if rng.chance(1, 3) => {
+                // one canonical class written in two different spellings, with amounts whose sum leaves i128:
+                // whatever guards the merge has to judge classes as the conversion does, not as they are spelled
+                let p = rng.bytes(28);
+                let nm = rng.bytes(3);
+                let spellings: Vec<(Expression, Expression)> = if rng.bool() {
+                    vec![(Expression::None, Expression::None), (Expression::Bytes(vec![]), Expression::Bytes(vec![])), (Expression::None, Expression::Bytes(vec![])), (Expression::Hash(vec![]), Expression::None), (Expression::String(String::new()), Expression::String(String::new()))]
+                } else {
+                    vec![(Expression::Bytes(p.clone()), Expression::Bytes(nm.clone())), (Expression::Hash(p.clone()), Expression::Bytes(nm.clone())), (Expression::Bytes(p.clone()), Expression::String(String::from_utf8_lossy(&nm).to_string())), (Expression::Address(p.clone()), Expression::Hash(nm.clone()))]
+                };
+                let (x, y) = *rng.pick(&[(i128::MAX, 1i128), (i128::MAX, i128::MAX), (i128::MIN, -1), (i128::MIN, i128::MIN), (i128::MAX - 1, 2), (1 << 126, 1 << 126), (5, 7)]);
+                let a = rng.pick(&spellings).clone();
+                let b = rng.pick(&spellings).clone();
+                Expression::Assets(vec![AssetExpr { policy: a.0, asset_name: a.1, amount: Expression::Number(x) }, AssetExpr { policy: b.0, asset_name: b.1, amount: Expression::Number(y) }])
+            }
             _ => {
                 let n = rng.usize(4);
                 let shared_policy = rng.bytes(28);
@@ -379,16 +394,19 @@ impl TirGen {
                         .map(|_| {
                             let same_class = rng.bool();
                             AssetExpr {
-                                policy: match rng.below(6) {
+                                policy: match rng.below(7) {
                                     0 => Expression::None,
                                     1 => Expression::Hash(shared_policy.clone()),
                                     2 => Expression::String("policy".into()),
+                                    // other spellings of "no policy"
+                                    6 => rng.pick(&[Expression::Bytes(vec![]), Expression::Hash(vec![]), Expression::String(String::new())]).clone(),
                                     _ => Expression::Bytes(if same_class { shared_policy.clone() } else { rng.bytes(28) }),
                                 },
-                                asset_name: match rng.below(6) {
+                                asset_name: match rng.below(7) {
                                     0 => Expression::None,
                                     1 => Expression::String("NAME".into()),
                                     2 => Expression::Number(7),
+                                    6 => rng.pick(&[Expression::Bytes(vec![]), Expression::String(String::new())]).clone(),
                                     _ => Expression::Bytes(if same_class { shared_name.clone() } else { rng.bytes(5) }),
                                 },
                                 amount: match rng.below(8) {
